@@ -880,6 +880,7 @@ def list_method(ctx, fr, path, lv, name, args, kwargs, node):
         x = ctx.toV(args[0])
         nv = Val(V.VList(simp(z3.Concat(seq, z3.Unit(x.t)))), lv.ann if ea is not None else ("list", x.ann),
                  own=lv.own, deep=lv.deep and not (x.own == "borrow" or (x.own == "fresh" and not x.deep)), src=lv.src)
+        nv.root = lv.root
         for p in _mutate_receiver(ctx, fr, path, node, nv):
             yield p, ctx.lift(None)
         return
